@@ -53,7 +53,7 @@ def run(tier, base):
                 f.write(json.dumps(s) + "\n")
         trace = os.path.join(d, f"trace_{i}.ndjson")
         repeat = 2 if tier == "thorough" else 1
-        core.run_harness(["pin-race", "--scripts", spath, "--trace", trace, "--repeat", str(repeat), "--settle-ms", "12"],
+        core.run_harness(["pin-race", "--scripts", spath, "--trace", trace, "--repeat", str(repeat), "--settle-ms", "20"],
                          timeout=3000)
         runs = {}
         with open(trace) as f:
